@@ -639,16 +639,21 @@ class Ref:
     def dtc_codes(self, o: J, depth: int = 0) -> List[int]:
         """trouble codes of a DTC-DOP: its own DTCs plus those of the linked DTC-DOPs that are
         not excluded by short name (own DTCs of the same name override)"""
-        own = [d["code"] for d in o["dtcs"]]
-        names = {d["name"] for d in o["dtcs"]}
-        if depth < 4:
+        return [c for _, c in self.dtc_entries(o, depth)]
+
+    def dtc_entries(self, o: J, depth: int = 0) -> List[Tuple[str, int]]:
+        """(short name, trouble code) of all DTCs of a DTC-DOP; a DTC that is reachable on
+        several paths (diamond of links) is there once"""
+        own = [(d["name"], d["code"]) for d in o["dtcs"]]
+        names = {n for n, _ in own}
+        if depth < 5:
             for ln in o.get("linked") or []:
                 other = self.dobj(ln["dop"])
                 excluded = set(ln.get("not_inherited") or [])
-                for d in other["dtcs"]:
-                    if d["name"] not in excluded and d["name"] not in names:
-                        own.append(d["code"])
-                        names.add(d["name"])
+                for n, c in self.dtc_entries(other, depth + 1):
+                    if n not in excluded and n not in names:
+                        own.append((n, c))
+                        names.add(n)
         return own
 
     def enc_dobj(self, cx: EncCtx, o: J, value: Any, pos: int, bit: int, last: bool) -> int:
@@ -1047,8 +1052,13 @@ class Ref:
                     raise Unrepresentable("unknown-row", v[0])
                 tgt = row.get("struct") or row.get("dop")
                 if tgt is None:
-                    raise Skip("row without structure or dop")
-                cursor = self.enc_dobj(cx, self.dobj(tgt), v[1], pos, bit, is_last)
+                    # a row that carries no data: only its key is on the wire
+                    if v[1] not in (None, {}):
+                        raise Skip("content for a table row without structure or data object")
+                    cursor = pos
+                    cx.pdu.ensure(cursor)
+                else:
+                    cursor = self.enc_dobj(cx, self.dobj(tgt), v[1], pos, bit, is_last)
             else:
                 raise Skip(f"parameter kind {kind}")
         # keys are filled in after their users
@@ -1150,8 +1160,9 @@ class Ref:
                     raise Skip("table struct before its key")
                 tgt = row.get("struct") or row.get("dop")
                 if tgt is None:
-                    raise Skip("row without structure or dop")
-                v, cursor = self.dec_dobj(cx, self.dobj(tgt), pos, bit, is_last)
+                    v, cursor = None, pos
+                else:
+                    v, cursor = self.dec_dobj(cx, self.dobj(tgt), pos, bit, is_last)
                 res[name] = (row["name"], v)
             else:
                 raise Skip(f"parameter kind {kind}")
